@@ -114,7 +114,11 @@ class Guitar(Instrument):
         Instrument.__init__(self)
 
     def can_play_notes(self, notes):
-        if len(notes) > 6:
+        # six strings: at most six notes at a time (a single Note or note
+        # string is one note, whatever its length)
+        if hasattr(notes, "notes"):
+            notes = notes.notes
+        if isinstance(notes, list) and len(notes) > 6:
             return False
         return Instrument.can_play_notes(self, notes)
 
